@@ -77,7 +77,7 @@ fn check_stub(p: raffle::CheckingParameters, value: u64, voucher: raffle::Vouche
 }
 
 /// The local times of the composition harness: calendar limits, the epoch and its neighbours,
-/// sub-millisecond parts (truncation toward zero), and the test suite's date.
+/// sub-millisecond parts on both sides of the epoch, and the test suite's date.
 fn some_datetime() -> time::PrimitiveDateTime {
     use time::{Date, Month, PrimitiveDateTime, Time};
     let sel: u8 = kani::any();
@@ -112,8 +112,11 @@ fn c14_check_composition() {
         ORACLE_VOUCHER = vbits;
     }
     let voucher = unsafe { std::mem::transmute::<u64, raffle::Voucher>(vbits) };
-    let local_ms: i128 = local.assume_utc().unix_timestamp_nanos() / 1_000_000;
-    let expect = vouches && window_ok(local_ms, base);
+    // the rule from the property statement: not before the epoch at the clock's own resolution, and the
+    // millisecond the instant falls in (floor) inside the window
+    let nanos: i128 = local.assume_utc().unix_timestamp_nanos();
+    let local_ms: i128 = nanos.div_euclid(1_000_000);
+    let expect = vouches && nanos >= 0 && window_ok(local_ms, base);
     let c = VouchedTime::check(local, base, voucher);
     assert!(c.is_ok() == expect);
     assert!(unsafe { ORACLE_CALLS } >= 1);
